@@ -48,7 +48,9 @@ PathOf(f) == [s \in {ToString(i) : i \in DOMAIN f} |-> f[CHOOSE i \in DOMAIN f :
 \* identifier bases at and around wrap-around; 32-bit values as <<hi, lo>>
 Bases == { [name |-> "mid",  ipid_base |-> 41821, echo_base |-> 40000, seq_base |-> <<4660, 22136>>, isn |-> <<4660, 22136>>],
            [name |-> "wrap", ipid_base |-> 65533, echo_base |-> 65533, seq_base |-> <<65535, 65534>>, isn |-> <<65535, 65533>>],
-           [name |-> "zero", ipid_base |-> 65535, echo_base |-> 65535, seq_base |-> <<0, 0>>, isn |-> <<0, 0>>] }
+           [name |-> "zero", ipid_base |-> 65535, echo_base |-> 65535, seq_base |-> <<0, 0>>, isn |-> <<0, 0>>],
+           \* isn + 4 = 2^32 - 1 and isn + 5 = 0: SACK blocks of one duplicate ACK on opposite sides of the sequence wrap
+           [name |-> "wrap5", ipid_base |-> 65531, echo_base |-> 65531, seq_base |-> <<65535, 65531>>, isn |-> <<65535, 65531>>] }
 BaseMid == CHOOSE b \in Bases : b.name = "mid"
 
 \* the common part of a wire scenario
@@ -174,7 +176,7 @@ LateDelay(v, mn, mx, t) ==
 
 C02Scen(v, strict, b, enc, dform, timing, nat, other, sackx) ==
     LET mn == 1  mx == 5  dt == 4
-        rdelay(t) == IF timing = "late" THEN LateDelay(v, mn, mx, t) ELSE 2000 + 900 * t
+        rdelay(t) == IF timing = "late" THEN LateDelay(v, mn, mx, t) ELSE IF timing = "eager" THEN 0 ELSE 2000 + 900 * t
         te(t) == [form |-> "te", from |-> Router(v, t), delay_us |-> rdelay(t), tag |-> "g"] @@ enc
                  @@ (IF nat THEN [mods_s |-> NatMods, mods |-> [q_sport |-> 1024]] ELSE [mods_s |-> NoMods])
         dst(t) == [form |-> dform, delay_us |-> rdelay(t), tag |-> "g"] @@ (IF dform = "sack" THEN [extra |-> sackx[1], desc |-> sackx[2]] ELSE [quote |-> "28"])
@@ -190,12 +192,13 @@ C02Scen(v, strict, b, enc, dform, timing, nat, other, sackx) ==
                \o (IF nat THEN "/nat" ELSE "") \o "/" \o other \o "/" \o ToString(Len(sackx[1])) \o (IF sackx[2] THEN "d" ELSE "a"),
         label |-> v \o "/" \o (IF strict THEN "strict" ELSE "relaxed") \o "/" \o enc.quote \o "/opt" \o ToString(enc.ipopt) \o "/" \o dform \o "/" \o timing
                   \o (IF nat THEN "/nat" ELSE "") \o "/" \o other,
+        eager |-> (timing = "eager"),
         path |-> PathOf([t \in mn..mx |-> IF t >= dt THEN <<dst(t)>> ELSE hop(t)])]
 
 SackExtras == <<<<<<>>, FALSE>>, <<<<5>>, FALSE>>, <<<<5>>, TRUE>>>>
 DestFormSeq(v) == SetToSeq(DestForms(v))
 \* the parameter space of the catalogue; dependent choices are made by index so that the space is a plain product
-C02Params == [v : Variants, s : BOOLEAN, b : Bases, enc : Encs, dfi : 1..3, tm : {"early", "late"},
+C02Params == [v : Variants, s : BOOLEAN, b : Bases, enc : Encs, dfi : 1..3, tm : {"early", "late", "eager"},
               ot : {"all", "loss", "dup", "reorder"}, sxi : 1..3, nat : BOOLEAN]
 C02Of(p) ==
     LET v == p.v
@@ -207,7 +210,9 @@ C02Of(p) ==
     IN C02Scen(v, s, p.b, p.enc, df, IF nat THEN "early" ELSE p.tm, nat, IF nat THEN "all" ELSE p.ot, sx)
 \* a fixed core (plain encoding, every variant/form/timing/strictness) plus a seeded sample of the full catalogue product
 C02Core == { [v |-> v, s |-> s, b |-> BaseMid, enc |-> EncPlain, dfi |-> i, tm |-> tm, ot |-> "all", sxi |-> x, nat |-> n] :
-               v \in Variants, s \in BOOLEAN, i \in 1..3, tm \in {"early", "late"}, x \in 1..3, n \in BOOLEAN }
+               v \in Variants, s \in BOOLEAN, i \in 1..3, tm \in {"early", "late", "eager"}, x \in 1..3, n \in BOOLEAN }
+           \cup { [v |-> "sack", s |-> s, b |-> b, enc |-> EncPlain, dfi |-> 1, tm |-> tm, ot |-> "all", sxi |-> x, nat |-> FALSE] :
+                    s \in BOOLEAN, b \in Bases, tm \in {"early", "eager"}, x \in 1..3 }
 C02All(u) == { C02Of(p) : p \in C02Core \cup RandomSubset(u, C02Params) }
 
 ---------------------------------------------------------------------------
